@@ -1086,7 +1086,9 @@ class UDFTimestamp:
 
         local = time.localtime(date_seconds)
 
-        self.tz = utils.gmtoffset_from_tm(date_seconds, local)
+        # The helper returns the offset in 15 minute intervals (what ISO9660
+        # wants); ECMA-167, Part 1, 7.3.1 specifies the offset in minutes.
+        self.tz = 15 * utils.gmtoffset_from_tm(date_seconds, local)
         # FIXME: for the timetype, 0 is UTC, 1 is local, 2 is 'agreement'.
         # let the user set this.
         self.timetype = 1
